@@ -4,6 +4,7 @@ import (
 	"crypto/sha256"
 	"encoding/hex"
 	"fmt"
+	"regexp"
 	"sort"
 	"strings"
 	"testing"
@@ -86,6 +87,15 @@ var engines = map[string]*Engine{}
 
 // digest of a full observation trace (for the determinism self-test and the distinct-run measure)
 func traceDigest(obs *Obs, skipKeys map[string]bool) string {
+	// per-run identifiers (xid, random session ids, the token) never take part
+	sk := map[string]bool{}
+	for k := range idKeys {
+		sk[k] = true
+	}
+	for k := range skipKeys {
+		sk[k] = true
+	}
+	skipKeys = sk
 	h := sha256.New()
 	for _, l := range obs.Trace {
 		h.Write([]byte(l))
@@ -105,7 +115,11 @@ func traceDigest(obs *Obs, skipKeys map[string]bool) string {
 	}
 	for i, c := range obs.Conns {
 		// replies may list things in Go map iteration order (FTP FEAT): hash the sorted lines
-		fmt.Fprintf(h, "C%d %x closed=%v refused=%v\n", i, canonLines(c.Recv), c.ServerClosed, c.Refused)
+		recv := c.Recv
+		if obs.TmpDir != "" {
+			recv = []byte(tmpRootRe.ReplaceAllString(strings.ReplaceAll(string(recv), obs.TmpDir, "@TMP@"), "@ROOT@"))
+		}
+		fmt.Fprintf(h, "C%d %x closed=%v refused=%v\n", i, canonLines(recv), c.ServerClosed, c.Refused)
 		// replies to datagrams released in the same step come from different goroutines: hash them sorted
 		var dl []string
 		for _, d := range c.Dgrams {
@@ -116,7 +130,9 @@ func traceDigest(obs *Obs, skipKeys map[string]bool) string {
 			h.Write([]byte(l))
 		}
 	}
+	// kernel log lines of one step come from goroutines whose wake-up order is the runtime's: sorted
 	nl := append([]string(nil), obs.NetLog...)
+	sort.Strings(nl)
 	for _, l := range nl {
 		h.Write([]byte(l))
 		h.Write([]byte{'\n'})
@@ -124,10 +140,12 @@ func traceDigest(obs *Obs, skipKeys map[string]bool) string {
 	return hex.EncodeToString(h.Sum(nil))[:16]
 }
 
+var tmpRootRe = regexp.MustCompile(`@TMP@/ftp/[0-9a-f]+`)
+
 // sessionKeys are per-run identifiers (xid based) masked in comparisons.
 var idKeys = map[string]bool{
 	"ftp.sessionid": true, "smtp.sessionid": true, "telnet.sessionid": true, "ssh.sessionid": true,
-	"sessionid": true, "session-id": true, "token": true,
+	"sessionid": true, "session-id": true, "token": true, "http.sessionid": true, "message": true,
 }
 
 func sortedKeys(m map[string]int) []string {
